@@ -777,8 +777,6 @@ inductive ROp where
   | removeNs (ns : Name)             -- remove_namespace
   deriving Repr, Inhabited
 
-def CIM_ERR_NAMESPACE_NOT_EMPTY : Nat := Pywbem.Generated.Resolve.CIM_ERR_NAMESPACE_NOT_EMPTY
-
 /-- what an operation answers when its namespace does not exist: the provider methods and
     add_cimobjects call `validate_namespace` (CIM_ERR_INVALID_NAMESPACE); the two helper functions the
     harness calls with a class store (`_get_superclass_names`, `is_subclass`) fail in
@@ -818,11 +816,12 @@ def rrun (r : Repo) : List ROp → Repo × List Out
     let rr := rrun x.1 ops
     (rr.1, x.2 :: rr.2)
 
-/-- the operations of a repository history that were addressed to (a spelling of) namespace `ns` -/
-def projectOps (ns : Name) : List ROp → List Op
+/-- the operations of a repository history that were addressed to (a spelling of) the namespace
+    stored under `key` -/
+def projectOps (key : Name) : List ROp → List Op
   | [] => []
-  | .inNs m o :: rest => if ieq (stripSlash m) (stripSlash ns) then o :: projectOps ns rest else projectOps ns rest
-  | _ :: rest => projectOps ns rest
+  | .inNs m o :: rest => if ieq key (stripSlash m) then o :: projectOps key rest else projectOps key rest
+  | _ :: rest => projectOps key rest
 
 /-! ### Spec: what the property demands (short, independent of the resolver code) -/
 
